@@ -182,4 +182,153 @@ theorem Sink.write_faultFree_ok (s : Sink) (data : Bytes) (hf : s.faultFree) (hd
 /-- entries that are not faulty -/
 theorem intr_not_faulty (kind req : Nat) : (LogE.faulty ⟨kind, req, .intr⟩) = false := rfl
 
+/-! ### write_all (writer.rs) -/
+
+theorem Sink.write_cases (s s' : Sink) (data : Bytes) (r : Except Nat Nat) (h : s.write data = (s', r)) :
+    s'.tail = s.tail ∧ s'.fscript = s.fscript ∧
+    (∃ pre, s'.log = ⟨0, data.length, exceptToRes r⟩ :: (pre ++ s.log) ∧ ∀ e ∈ pre, e = ⟨0, data.length, .intr⟩) ∧
+    (match r with
+     | .ok k => k ≤ data.length ∧ s'.got = s.got ++ data.take k
+     | .error _ => s'.got = s.got) := by
+  have h1 : (s.write data).1 = s' := by rw [h]
+  have h2 : (s.write data).2 = r := by rw [h]
+  refine ⟨?_, ?_, ?_, ?_⟩
+  · rw [← h1, Sink.write_tail]
+  · rw [← h1, Sink.write_fscript]
+  · obtain ⟨pre, hp, hq⟩ := Sink.write_log s data
+    exact ⟨pre, by rw [← h1, ← h2]; exact hp, hq⟩
+  · cases r with
+    | ok k => exact ⟨Sink.write_le s data k h2, by rw [← h1]; exact Sink.write_got_ok s data k h2⟩
+    | error c => simp only; rw [← h1]; exact Sink.write_got_err s data c h2
+
+theorem faulty_n_pos (kind req k : Nat) (hk : k ≠ 0) : LogE.faulty ⟨kind, req, .n k⟩ = false := by
+  cases k with
+  | zero => exact absurd rfl hk
+  | succ n => rfl
+
+/-- bytes accounted for by the `Ok(k)` entries of a log -/
+def bytesOf : List LogE → Nat
+  | [] => 0
+  | e :: rest => (match e.res with | .n k => k | _ => 0) + bytesOf rest
+
+/-- number of calls that were not `Interrupted` -/
+def answered : List LogE → Nat
+  | [] => 0
+  | e :: rest => (match e.res with | .intr => 0 | _ => 1) + answered rest
+
+theorem bytesOf_append (a b : List LogE) : bytesOf (a ++ b) = bytesOf a + bytesOf b := by
+  induction a with
+  | nil => simp [bytesOf]
+  | cons e r ih => simp [bytesOf, ih]; omega
+
+theorem answered_append (a b : List LogE) : answered (a ++ b) = answered a + answered b := by
+  induction a with
+  | nil => simp [answered]
+  | cons e r ih => simp [answered, ih]; omega
+
+theorem bytesOf_intr (pre : List LogE) (kind req : Nat) (h : ∀ e ∈ pre, e = ⟨kind, req, .intr⟩) :
+    bytesOf pre = 0 ∧ answered pre = 0 := by
+  induction pre with
+  | nil => simp [bytesOf, answered]
+  | cons e r ih =>
+    have he := h e (List.mem_cons_self ..)
+    have hr := ih (fun e' h' => h e' (List.mem_cons_of_mem _ h'))
+    subst he
+    simp [bytesOf, answered, hr.1, hr.2]
+
+theorem writeAll_spec (ez ei : Bool) (s : Sink) (buf : Bytes) :
+    ∃ (new : List LogE) (p : Bytes),
+      (writeAll ez ei s buf).2.2.1.log = new ++ s.log ∧
+      (writeAll ez ei s buf).2.2.1.got = s.got ++ p ∧ p <+: buf ∧
+      (writeAll ez ei s buf).2.2.1.tail = s.tail ∧
+      (writeAll ez ei s buf).2.2.1.fscript = s.fscript ∧
+      bytesOf new = p.length ∧ answered new ≤ p.length + 1 ∧
+      ((writeAll ez ei s buf).2.2.2 = .ok () → (ez = true ∨ ei = true) →
+          p = buf ∧ (∀ e ∈ new, e.faulty = false) ∧
+          (writeAll ez ei s buf).1 = ez ∧ (writeAll ez ei s buf).2.1 = ei) := by
+  fun_induction writeAll ez ei s buf
+  case case1 s => exact ⟨[], [], by simp [bytesOf, answered]⟩
+  case case2 s buf hb s' c hx =>
+    obtain ⟨ht, hf, ⟨pre, hl, hp⟩, hg⟩ := Sink.write_cases _ _ _ _ hx
+    have hz := bytesOf_intr pre _ _ hp
+    refine ⟨⟨0, buf.length, .err c⟩ :: pre, [], by simpa [exceptToRes] using hl, by simpa using hg, List.nil_prefix, ht, hf,
+      by simp [bytesOf, hz.1], by simp [answered, hz.2], ?_⟩
+    intro h; simp at h
+  case case3 s buf hb s' k hx hk ih =>
+    obtain ⟨ht, hf, ⟨pre, hl, hp⟩, hle, hg⟩ := Sink.write_cases _ _ _ _ hx
+    obtain ⟨new', p', i1, i2, i3, i4, i5, ib, ia, i6⟩ := ih
+    have hz := bytesOf_intr pre _ _ hp
+    have hkpos : 0 < k := Nat.pos_of_ne_zero hk
+    refine ⟨new' ++ ⟨0, buf.length, .n k⟩ :: pre, buf.take k ++ p', ?_, ?_, ?_, by rw [i4, ht], by rw [i5, hf], ?_, ?_, ?_⟩
+    · rw [i1, hl]; simp [exceptToRes]
+    · rw [i2, hg]; simp
+    · have : buf = buf.take k ++ buf.drop k := (List.take_append_drop k buf).symm
+      conv => rhs; rw [this]
+      exact (List.prefix_append_right_inj _).mpr i3
+    · rw [bytesOf_append]; simp [bytesOf, hz.1, ib, List.length_take]; omega
+    · rw [answered_append]; simp [answered, hz.2, List.length_take]; omega
+    · intro hok harm
+      obtain ⟨j1, j2, j3, j4⟩ := i6 hok harm
+      refine ⟨by rw [j1, List.take_append_drop], ?_, j3, j4⟩
+      intro e he
+      rcases List.mem_append.mp he with h | h
+      · exact j2 e h
+      · rcases List.mem_cons.mp h with h | h
+        · subst h; exact faulty_n_pos _ _ _ hk
+        · rw [hp e h]; rfl
+  case case4 s buf hb s' k hx hk hez =>
+    obtain ⟨ht, hf, ⟨pre, hl, hp⟩, hle, hg⟩ := Sink.write_cases _ _ _ _ hx
+    have hk0 : k = 0 := by simpa using hk
+    subst hk0
+    have hz := bytesOf_intr pre _ _ hp
+    refine ⟨⟨0, buf.length, .n 0⟩ :: pre, [], by simpa [exceptToRes] using hl, by simpa using hg, List.nil_prefix, ht, hf,
+      by simp [bytesOf, hz.1], by simp [answered, hz.2], ?_⟩
+    intro h; simp at h
+  case case5 s buf hb s' k hx hk hez hei =>
+    obtain ⟨ht, hf, ⟨pre, hl, hp⟩, hle, hg⟩ := Sink.write_cases _ _ _ _ hx
+    have hk0 : k = 0 := by simpa using hk
+    subst hk0
+    have hz := bytesOf_intr pre _ _ hp
+    refine ⟨⟨0, buf.length, .n 0⟩ :: pre, [], by simpa [exceptToRes] using hl, by simpa using hg, List.nil_prefix, ht, hf,
+      by simp [bytesOf, hz.1], by simp [answered, hz.2], ?_⟩
+    intro h; simp at h
+  case case6 s buf hb s' k hx hk hez hei =>
+    obtain ⟨ht, hf, ⟨pre, hl, hp⟩, hle, hg⟩ := Sink.write_cases _ _ _ _ hx
+    have hk0 : k = 0 := by simpa using hk
+    subst hk0
+    have hz := bytesOf_intr pre _ _ hp
+    refine ⟨⟨0, buf.length, .n 0⟩ :: pre, [], by simpa [exceptToRes] using hl, by simpa using hg, List.nil_prefix, ht, hf,
+      by simp [bytesOf, hz.1], by simp [answered, hz.2], ?_⟩
+    intro _ harm
+    rcases harm with h | h
+    · exact absurd h hez
+    · exact absurd h hei
+/-- over a wrapped writer that never fails `write_all` hands over everything, whatever the
+state of the error slots -/
+theorem writeAll_faultFree (ez ei : Bool) (s : Sink) (buf : Bytes) (hf : s.faultFree) :
+    (writeAll ez ei s buf).1 = ez ∧ (writeAll ez ei s buf).2.1 = ei ∧
+    (writeAll ez ei s buf).2.2.2 = .ok () ∧
+    (writeAll ez ei s buf).2.2.1.got = s.got ++ buf ∧
+    (writeAll ez ei s buf).2.2.1.faultFree := by
+  fun_induction writeAll ez ei s buf
+  case case1 s => simp [hf]
+  case case2 s buf hb s' c hx =>
+    obtain ⟨k, hk, _⟩ := Sink.write_faultFree_ok s buf hf hb
+    rw [hx] at hk; simp at hk
+  case case3 s buf hb s' k hx hk ih =>
+    have hf' : s'.faultFree := by have := Sink.write_faultFree s buf hf; rwa [hx] at this
+    obtain ⟨i1, i2, i3, i4, i5⟩ := ih hf'
+    obtain ⟨_, _, _, hle, hg⟩ := Sink.write_cases _ _ _ _ hx
+    refine ⟨i1, i2, i3, ?_, i5⟩
+    rw [i4, hg, List.append_assoc, List.take_append_drop]
+  case case4 s buf hb s' k hx hk hez =>
+    obtain ⟨k', hk', hpos⟩ := Sink.write_faultFree_ok s buf hf hb
+    rw [hx] at hk'; simp at hk'; omega
+  case case5 s buf hb s' k hx hk hez hei =>
+    obtain ⟨k', hk', hpos⟩ := Sink.write_faultFree_ok s buf hf hb
+    rw [hx] at hk'; simp at hk'; omega
+  case case6 s buf hb s' k hx hk hez hei =>
+    obtain ⟨k', hk', hpos⟩ := Sink.write_faultFree_ok s buf hf hb
+    rw [hx] at hk'; simp at hk'; omega
+
 end BV.Adapters
